@@ -82,6 +82,23 @@ func c20Check(w *mc.Worker, kind string, v int64) {
 				c20Viol(w, "oomadj-roundtrip", in, fmt.Sprintf("capacity %d: adj %d -> request %d -> adj %d", v, adj, *req, got))
 				return
 			}
+			// the same with a memory limit: limits on and around the boundaries of the adjustment's request range
+			lims := []int64{*req + 1, v}
+			if adj > MinBurstableOOMScoreAdj {
+				if next := OomAdjToMemReq(adj-1, 0); next != nil {
+					lims = append(lims, *next-1, *next, *next+1)
+				}
+			}
+			for _, lim := range lims {
+				r := OomAdjToMemReq(adj, lim)
+				if r == nil {
+					continue
+				}
+				if got := MemReqToOomAdj(*r); got != adj {
+					c20Viol(w, "oomadj-roundtrip-with-limit", in, fmt.Sprintf("capacity %d: adj %d with limit %d -> request %d -> adj %d", v, adj, lim, *r, got))
+					return
+				}
+			}
 		}
 	}
 }
